@@ -5,6 +5,12 @@ export CARGO_NET_OFFLINE=true CARGO_TERM_COLOR=never
 args=(rustc --offline --manifest-path /repo/miniz_oxide/Cargo.toml --lib --no-default-features --target-dir "$(dirname "$0")/target/slot$slot")
 [ -n "$feats" ] && args+=(--features "$feats")
 if [ "$tgt" != "host" ]; then
-  exec cargo +nightly "${args[@]}" -Zbuild-std=core,alloc --target "$tgt" -- -F unsafe_code
+  # no pre-built standard library for these targets: build it from rust-src; the feature sets that
+  # contain `std` (and serde/std with it) need the whole of std, the others only core + alloc
+  case ",$feats," in
+    *,std,*) bs="-Zbuild-std" ;;
+    *) bs="-Zbuild-std=core,alloc" ;;
+  esac
+  exec cargo +nightly "${args[@]}" $bs --target "$tgt" -- -F unsafe_code
 fi
 exec cargo "${args[@]}" -- -F unsafe_code
